@@ -834,6 +834,206 @@ func (r *run) c11h(g *gen.G, budget int) {
 	}
 }
 
+// ---- C18 ----
+
+func parseAddr(group bool, text string) (out string, val int, ok bool) {
+	defer func() {
+		if p := recover(); p != nil {
+			out, val, ok = "panic", 0, false
+		}
+	}()
+	if group {
+		a, err := cemi.NewGroupAddrString(text)
+		if err != nil {
+			return "err", 0, false
+		}
+		return fmt.Sprintf("ok %d", uint16(a)), int(a), true
+	}
+	a, err := cemi.NewIndividualAddrString(text)
+	if err != nil {
+		return "err", 0, false
+	}
+	return fmt.Sprintf("ok %d", uint16(a)), int(a), true
+}
+
+// c18Parse runs one parser on text; want < 0 means "must be rejected".
+func (r *run) c18Parse(group bool, text string, want int, emit bool) {
+	opn := "pi"
+	if group {
+		opn = "pg"
+	}
+	op := opn + " " + ktext.Hex([]byte(text))
+	out, val, ok := parseAddr(group, text)
+	if emit {
+		r.emit(op, out)
+		r.distinct[op] = true
+	}
+	switch {
+	case out == "panic":
+		r.violation("parse-panic", op, fmt.Sprintf("%q", text))
+	case want < 0 && ok:
+		r.violation("accepted-malformed", op, fmt.Sprintf("%q was accepted as %d", text, val))
+	case want >= 0 && !ok:
+		r.violation("rejected-valid", op, fmt.Sprintf("%q (= %d) was rejected", text, want))
+	case want >= 0 && val != want:
+		r.violation("parsed-wrong-value", op, fmt.Sprintf("%q parsed to %d, documented value %d", text, val, want))
+	}
+}
+
+func (r *run) c18(g *gen.G, budget int) {
+	thorough := budget >= 400000
+	// 1. round trip of all 65535 non-zero addresses of both kinds (oracle on every one; the
+	// correspondence stream carries every k-th)
+	stride := 1
+	off := g.R.Intn(stride)
+	for n := 1; n <= 65535; n++ {
+		emit := (n+off)%stride == 0 || n < 300 || n > 65535-300
+		gs := cemi.GroupAddr(n).String()
+		is := cemi.IndividualAddr(n).String()
+		if emit {
+			r.emit(fmt.Sprintf("fg %d", n), ktext.Hex([]byte(gs)))
+			r.emit(fmt.Sprintf("fi %d", n), ktext.Hex([]byte(is)))
+		}
+		r.c18Parse(true, gs, n, emit)
+		r.c18Parse(false, is, n, emit)
+	}
+	// 2. component tuples over the documented ranges widened by a margin (negatives included)
+	in := func(v, lo, hi int) bool { return v >= lo && v <= hi }
+	samp := func() bool { return thorough || g.R.Intn(3) == 0 }
+	for a := -3; a <= 35; a++ {
+		for b := -3; b <= 19; b++ {
+			for c := -3; c <= 259; c++ {
+				if !samp() {
+					continue
+				}
+				want := -1
+				if in(a, 0, 31) && in(b, 0, 7) && in(c, 0, 255) && !(a == 0 && b == 0 && c == 0) {
+					want = a*2048 + b*256 + c
+				}
+				r.c18Parse(true, fmt.Sprintf("%d/%d/%d", a, b, c), want, true)
+				want = -1
+				if in(a, 0, 15) && in(b, 0, 15) && in(c, 0, 255) && !(a == 0 && b == 0 && c == 0) {
+					want = a*4096 + b*256 + c
+				}
+				r.c18Parse(false, fmt.Sprintf("%d.%d.%d", a, b, c), want, true)
+			}
+		}
+	}
+	for a := -3; a <= 35; a++ {
+		for b := -3; b <= 2051; b++ {
+			if !samp() {
+				continue
+			}
+			want := -1
+			if in(a, 0, 31) && in(b, 0, 2047) && !(a == 0 && b == 0) {
+				want = a*2048 + b
+			}
+			r.c18Parse(true, fmt.Sprintf("%d/%d", a, b), want, true)
+		}
+	}
+	for a := -3; a <= 259; a++ {
+		for b := -3; b <= 259; b++ {
+			if !samp() {
+				continue
+			}
+			want := -1
+			if in(a, 0, 255) && in(b, 0, 255) && !(a == 0 && b == 0) {
+				want = a*256 + b
+			}
+			r.c18Parse(false, fmt.Sprintf("%d.%d", a, b), want, true)
+		}
+	}
+	for n := -3; n <= 65539; n++ {
+		if !samp() && n > 3 && n < 65530 {
+			continue
+		}
+		want := -1
+		if in(n, 1, 65535) {
+			want = n
+		}
+		r.c18Parse(true, fmt.Sprint(n), want, true)
+		r.c18Parse(false, fmt.Sprint(n), want, true)
+	}
+	// 3. a grammar of malformed strings
+	pieces := []string{"", " ", "1", "0", "01", "+1", "-1", "-0", "1 ", " 1", "a", "0x1", "1e1", "1_0", "１", "٣", "99999999999999999999", "00000000000000000001", "1.5", "\x00", "\n"}
+	seps := []string{"/", ".", ",", "//", " / ", "\\", ":"}
+	for _, sep := range seps {
+		for _, x := range pieces {
+			for _, y := range pieces {
+				for _, z := range []string{"", "1", "a", "-1", "256"} {
+					for _, text := range []string{x, x + sep + y, x + sep + y + sep + z, x + sep + y + sep + z + sep + "1", sep + x, x + sep} {
+						for _, group := range []bool{true, false} {
+							want := wantOf(group, text)
+							r.c18Parse(group, text, want, thorough || g.R.Intn(6) == 0)
+						}
+					}
+				}
+			}
+		}
+	}
+}
+
+// wantOf is the documented acceptance rule written independently of the parser: split at the
+// kind's separator into 1..3 decimal literals (optional sign, ASCII digits), all components in
+// range, not all zero.
+func wantOf(group bool, text string) int {
+	sep := "."
+	if group {
+		sep = "/"
+	}
+	parts := strings.Split(text, sep)
+	var nums []int
+	for _, p := range parts {
+		q := p
+		neg := false
+		if strings.HasPrefix(q, "+") {
+			q = q[1:]
+		} else if strings.HasPrefix(q, "-") {
+			q, neg = q[1:], true
+		}
+		if q == "" {
+			return -1
+		}
+		v := 0
+		for _, ch := range []byte(q) {
+			if ch < '0' || ch > '9' {
+				return -1
+			}
+			if v < 1<<40 {
+				v = v*10 + int(ch-'0')
+			}
+		}
+		if neg {
+			v = -v
+		}
+		nums = append(nums, v)
+	}
+	in := func(v, lo, hi int) bool { return v >= lo && v <= hi }
+	switch len(nums) {
+	case 3:
+		a, b, c := nums[0], nums[1], nums[2]
+		if group && in(a, 0, 31) && in(b, 0, 7) && in(c, 0, 255) && !(a == 0 && b == 0 && c == 0) {
+			return a*2048 + b*256 + c
+		}
+		if !group && in(a, 0, 15) && in(b, 0, 15) && in(c, 0, 255) && !(a == 0 && b == 0 && c == 0) {
+			return a*4096 + b*256 + c
+		}
+	case 2:
+		a, b := nums[0], nums[1]
+		if group && in(a, 0, 31) && in(b, 0, 2047) && !(a == 0 && b == 0) {
+			return a*2048 + b
+		}
+		if !group && in(a, 0, 255) && in(b, 0, 255) && !(a == 0 && b == 0) {
+			return a*256 + b
+		}
+	case 1:
+		if in(nums[0], 1, 65535) {
+			return nums[0]
+		}
+	}
+	return -1
+}
+
 func main() {
 	prop := flag.String("prop", "", "C01 | C02 | C15")
 	seed := flag.Int64("seed", 1, "PRNG seed")
@@ -862,6 +1062,8 @@ func main() {
 		r.c11(g, *budget)
 	case "C11h":
 		r.c11h(g, *budget)
+	case "C18":
+		r.c18(g, *budget)
 	default:
 		fmt.Fprintln(os.Stderr, "unknown -prop")
 		os.Exit(2)
